@@ -265,6 +265,7 @@ func checkC15(c *Ctx) {
 		"C15.reset: Reset rewrites every field Write/Read modify (mod-set of the streaming methods ⊆ mod-set of Reset, with reasoned exceptions)",
 		"C15.params: the sponge constructors set rate = 200 - 2·security bytes, the SHA-3 (0x06) / SHAKE (0x1f) domain bytes, 12 rounds only for TurboSHAKE; KangarooTwelve uses the domain bytes 0x07 (single node), 0x0B (leaves), 0x06 (final node) and 8192-byte chunks",
 		"C15.ascon-tag: Open computes the expected tag into a buffer of its own (not derived from any parameter, hence not aliasing dst or the ciphertext) and releases the plaintext only behind the constant-time comparison with the received tag",
+		"C15.expander: expand_message_xmd / expand_message_xof hash the domain separation tag exactly when it is longer than 255 bytes (boundary values 255 and 256 evaluated by constant propagation)",
 		"C15.lanes: the 2- and 4-way permutation wrappers pass the round-count flag on (every parameter of permuteSIMDx2/x4 and permuteScalarX2/X4 reaches the scalar permutation)")
 	c.NotDec = append(c.NotDec,
 		"digest and output-stream values, padding arithmetic, chunking/partition independence of the buffered absorb/squeeze code",
@@ -416,6 +417,22 @@ func checkC15(c *Ctx) {
 			}
 		}
 		c.guard(p, "C15.ascon-tag", "rejects unless the tags compare equal", f, GuardSpec{Assumes: []Assume{calleeAssume(latInt(0), -1, "crypto/subtle.ConstantTimeCompare")}})
+	}
+	// expanders: RFC 9380 hashes the domain separation tag only when it is longer than 255 bytes
+	for _, typ := range []string{"expanderMD", "expanderXOF"} {
+		f := p.Func("expander", typ, "calcDSTPrime")
+		dstIs := func(n int64) []ValAssume {
+			return []ValAssume{{Name: "dst", Val: latSliceLen(n), Match: func(v ssa.Value, in *ssa.Function) bool {
+				u, ok := v.(*ssa.UnOp)
+				if !ok || u.Op != token.MUL || in != f {
+					return false
+				}
+				fa, ok := u.X.(*ssa.FieldAddr)
+				return ok && fieldName(fa) == "dst"
+			}}}
+		}
+		c.reachRule(p, "C15.expander", "a 255-byte DST is used verbatim (not hashed)", f, nil, nil, dstIs(255), "expander.mustWrite", false)
+		c.reachRule(p, "C15.expander", "a 256-byte DST is hashed (oversize rule)", f, nil, nil, dstIs(256), "expander.mustWrite", true)
 	}
 	// lanes: the turbo flag reaches the scalar permutation
 	for _, n := range []string{"permuteScalarX2", "permuteScalarX4"} {
